@@ -359,6 +359,11 @@ func runC08(ctx *core.Ctx) {
 		})
 		ctx.Check(ok && drop, "F4", "diff.lines#no-newline-marker", l.Pos(), "marker \"\\n\\\\ No newline at end of file\\n\" appended only to a non-empty last segment (%v); an empty last segment is dropped (%v)", ok, drop)
 	}
+	// ---- F8 lines() is total
+	ctx.Rule("F8", "lines() cannot panic on any text (bounds engine; strings.SplitAfter with a non-empty separator yields at least one element)", 2)
+	if l := p.Func("diff", "lines"); l != nil {
+		totality(ctx, []*ssa.Function{l}, totalOpts{rule: "F8"})
+	}
 	// ---- F5 consumer
 	if len(p.TypeErrs[core.ModPath+"/testscript"]) > 0 {
 		ctx.Note("F5", "testscript.doCmdCmp#diff-operands", token.NoPos, "package testscript does not type-check in this configuration (an upstream condition); the consumer rule is evaluated in the other configurations")
